@@ -152,8 +152,24 @@ func VH_mdiff_ChunksWide() {
 	VH_mdiff_Chunks()
 }
 
+// vAliasLines, when set by an entry, makes VH_mdiff_Chunks diff two views of
+// one array of lines (Left = buf[:nl], Right = buf[off:off+nr]).
+var vAliasLines = -1
+
+// VH_mdiff_ChunksAlias: Left and Right share storage (a slice and its
+// truncation, an in-place append, two windows of one buffer).
+func VH_mdiff_ChunksAlias() {
+	vAliasLines = vCase("off")
+	vCover("alias-lines")
+	VH_mdiff_Chunks()
+}
+
 func VH_mdiff_Chunks() {
 	l, r := vMkLines(vCase("nl"), "l"), vMkLines(vCase("nr"), "r")
+	if vAliasLines >= 0 {
+		buf := vMkLines(max(vCase("nl"), vCase("nr")+vAliasLines), "b")
+		l, r = buf[:vCase("nl")], buf[vAliasLines:vAliasLines+vCase("nr")]
+	}
 	n := vCase("ctx")
 	if n == -2 {
 		n = vRange("n", 0, 1<<63-1) // any context size at all
